@@ -140,7 +140,7 @@ func TestC16(t *testing.T) {
 	}
 	c.Info("alpha", map[string]any{"exhaustive_strings": total, "max_len": maxLen})
 	// grammar-generated, mutated, random and oversized bodies
-	nb := c.N(160, 4000)
+	nb := c.N(800, 12000)
 	for bi := 0; bi < nb; bi++ {
 		batch("mixed", bi, map[string]any{"batch": bi, "inputs": 2500}, func(b *B) {
 			r := c.Rand("c16mixed", bi)
@@ -154,7 +154,7 @@ func TestC16(t *testing.T) {
 		})
 	}
 	// every truncation point and every +-1 length tweak of grammar bodies
-	nt := c.N(60, 1500)
+	nt := c.N(300, 4000)
 	for bi := 0; bi < nt; bi++ {
 		batch("trunc", bi, map[string]any{"batch": bi}, func(b *B) {
 			r := c.Rand("c16trunc", bi)
@@ -561,7 +561,7 @@ func (g *treeGen) buildTree(n, idx int, memo map[int]int) error {
 func TestC17(t *testing.T) {
 	c := rt.Get()
 	dec := newDecoder()
-	nb := c.N(160, 3000)
+	nb := c.N(800, 10000)
 	for bi := 0; bi < nb; bi++ {
 		batch("decode", bi, map[string]any{"batch": bi, "inputs": 2000}, func(b *B) {
 			r := c.Rand("c17decode", bi)
@@ -624,7 +624,7 @@ func TestC17(t *testing.T) {
 		return s
 	}()})
 	// random deeper trees
-	nr := c.N(40, 600)
+	nr := c.N(200, 2000)
 	for bi := 0; bi < nr; bi++ {
 		batch("randtrees", bi, map[string]any{"batch": bi}, func(b *B) {
 			r := c.Rand("c17rt", bi)
